@@ -4,4 +4,6 @@
 #![allow(dead_code, non_camel_case_types)]
 #[path = "../../laws/laws.rs"]
 pub mod laws;
+#[cfg(not(kani))]
+pub mod seqlaw;
 pub mod gen;
